@@ -50,4 +50,9 @@ DevRollback == {"BootcheckNeverHits", "BackupDropsJournalMode", "ModeSetByCreato
 DevDrops == {"BootcheckNeverHits", "BackupDropsJournalMode"}
 DevCreatorOnly == {"BootcheckNeverHits", "ModeSetByCreatorOnly"}
 DevTidy == {"BootcheckNeverHits", "CloseRemovesSideFiles"}
+\* the seeded class r6: a write transaction that is opened and not ended before the call returns.
+\* Three workers race for the bootstrap write on a database without (and with) the bootstrap page.
+\* With two workers the deviation is invisible (nobody writes after the loser): MC_Workers_skip_two.cfg
+ScnBoot3 == Old([bak : {FALSE}, boot : BOOLEAN, cursor : {FALSE}, drv : {FALSE}])
+DevSkip == {"CommitSkippedWhenUnchanged"}
 =============================================================================
